@@ -267,6 +267,11 @@ def run_restart_case(case):
     before, what, after, later = case
     w = world.World()
     p = w.mk_provider()
+    inst_from = inst_to = None
+    if what.startswith('instance:'):
+        # an InstanceId-only change between two given values (absent, 0, 1, 2^40) with the SequenceId unchanged
+        inst_from, inst_to = (None if x == 'absent' else int(x) for x in what.split(':')[1].split('>'))
+        p.mdib.instance_id = inst_from
     c = w.mk_consumer(p)
     m = w.mk_consumer_mdib(c)
     world.ENV.inline_thread_targets = {'_set_observable'}
@@ -283,6 +288,8 @@ def run_restart_case(case):
         p.mdib.sequence_id = world._uuid4().urn
     elif what == 'instance':
         p.mdib.instance_id = (p.mdib.instance_id or 0) + 1
+    elif what.startswith('instance:'):
+        p.mdib.instance_id = inst_to
     else:
         p.mdib.sequence_id = world._uuid4().urn
         p.mdib.instance_id = (p.mdib.instance_id or 0) + 1
@@ -517,6 +524,12 @@ def run(ctx):
         for b in ([], ['metric(N1,1)'], ['create-metric']):
             for a in [[e] for e in RESTART_EVENTS] + [['metric(N1,1)', 'alert-cond(on)'], ['create-metric', 'metric(N1,2)']]:
                 cases.append((tuple(b), what, tuple(a), ('metric(N1,2)', 'patient-new(B)')))
+    inst_values = ('absent', '0', '1', str(2 ** 40))
+    for x in inst_values:
+        for y in inst_values:
+            if x != y:
+                for a in (('metric(N1,1)',), ('patient-new(A)',), ('create-metric',)):
+                    cases.append(((), f'instance:{x}>{y}', a, ('metric(N1,2)',)))
     ctx.pmap(_restart_work, ctx.rotate(cases), chunksize=2)
     bound = 1 if ctx.quick else 3
     if ctx.quick:
